@@ -61,6 +61,31 @@ inductive InsRes (K V : Type) (h : Nat) where
   | inserted (t : Tree K V h)             -- no split (0)
   | split (l r : Tree K V h) (sep : K)    -- split (1): `sep` is an owned reference handed to the caller
 
+/-- `node_insert_leaf`, split path: the `cap + 1` would-be entries are cut at `cap / 2` through temporaries -/
+def splitLeaf (cfg : Cfg) (cap : Nat) (l : Leaf K V) (k : K) (v : V) (newId pos : Nat) : Res (InsRes K V 0 × Evs K V) :=
+  let tk := insertAt l.keys pos k
+  let tv := insertAt l.vals pos v
+  let mid := cap / 2
+  let rn := cap + 1 - mid                           -- `total_items - mid` with `total_items = capacity + 1`
+  if tk.length > cap + 1 ∨ tv.length > cap + 1 then .ub      -- temp arrays overflow
+  else if mid > cap ∨ rn > cap then .ub                       -- key / value slot index ≥ capacity
+  else if mid + rn > tk.length ∨ mid + rn > tv.length then .ub -- reads temp entries never written
+  else
+    let rk := (tk.drop mid).take rn
+    let rv := (tv.drop mid).take rn
+    match rk.head? with
+    | none => .ub                                   -- `node_get_key(*new_node, 0)` of an empty node
+    | some sep =>
+      let moved : List (Obj K V) := if cfg.legacyRefs then (tk.map .key ++ tv.map .val) else [.key k, .val v]
+      .ok (.split ({ id := l.id, keys := tk.take mid, vals := tv.take mid, next := newId } : Leaf K V)
+                  ({ id := newId, keys := rk, vals := rv, next := l.next } : Leaf K V) sep,
+           { inc := moved ++ [.key sep] })
+
+/-- `node_insert_leaf`, key absent, `pos` = insertion index -/
+def insertLeafAbsent (cfg : Cfg) (cap : Nat) (l : Leaf K V) (k : K) (v : V) (newId pos : Nat) : Res (InsRes K V 0 × Evs K V) :=
+  if l.keys.length ≥ cap then splitLeaf cfg cap l k v newId pos
+  else .ok (.inserted ({ l with keys := insertAt l.keys pos k, vals := insertAt l.vals pos v } : Leaf K V), { inc := [.key k, .val v] })
+
 /-- `node_insert_leaf` -/
 def insertLeaf (cfg : Cfg) (cap : Nat) (l : Leaf K V) (k : K) (v : V) (newId : Nat) : Res (InsRes K V 0 × Evs K V) :=
   let pos := lowerBound l.keys k
@@ -71,27 +96,7 @@ def insertLeaf (cfg : Cfg) (cap : Nat) (l : Leaf K V) (k : K) (v : V) (newId : N
     match l.vals[pos]? with
     | none => .ub                                     -- reads a value slot beyond the values present
     | some old => .ok (.updated ({ l with vals := setAt l.vals pos v } : Leaf K V), { inc := [.val v], dec := [.val old] })
-  else if l.keys.length ≥ cap then
-    -- split through temporaries of `cap + 1` entries
-    let tk := insertAt l.keys pos k
-    let tv := insertAt l.vals pos v
-    let mid := cap / 2
-    let rn := cap + 1 - mid                           -- `total_items - mid` with `total_items = capacity + 1`
-    if tk.length > cap + 1 ∨ tv.length > cap + 1 then .ub      -- temp arrays overflow
-    else if mid > cap ∨ rn > cap then .ub                       -- key / value slot index ≥ capacity
-    else if mid + rn > tk.length ∨ mid + rn > tv.length then .ub -- reads temp entries never written
-    else
-      let rk := (tk.drop mid).take rn
-      let rv := (tv.drop mid).take rn
-      match rk.head? with
-      | none => .ub                                   -- `node_get_key(*new_node, 0)` of an empty node
-      | some sep =>
-        let moved : List (Obj K V) := if cfg.legacyRefs then (tk.map .key ++ tv.map .val) else [.key k, .val v]
-        .ok (.split ({ id := l.id, keys := tk.take mid, vals := tv.take mid, next := newId } : Leaf K V)
-                    ({ id := newId, keys := rk, vals := rv, next := l.next } : Leaf K V) sep,
-             { inc := moved ++ [.key sep] })
-  else
-    .ok (.inserted ({ l with keys := insertAt l.keys pos k, vals := insertAt l.vals pos v } : Leaf K V), { inc := [.key k, .val v] })
+  else insertLeafAbsent cfg cap l k v newId pos
 
 /-- `node_insert_branch` after child `ci` split into `(l, r)` around the owned separator `sep` -/
 def insertBranch (cfg : Cfg) (cap : Nat) (b : Branch K α) (ci : Nat) (l r : α) (sep : K) :
